@@ -129,6 +129,10 @@ M = [
     ("m92", "C19", "src/replication/hash_ring.rs", "        self.physical_nodes.retain(|n| *n != node);", "        self.physical_nodes.retain(|n| *n != node);\n        self.replication_factor = self.replication_factor.min(self.physical_nodes.len().max(1));", r"R19\.8"),
     ("m93", "C02", "src/production/sharded_actor.rs", "    async fn execute(&self, cmd: Command, virtual_time: VirtualTime) -> RespValue {", "    async fn execute(&self, cmd: Command, virtual_time: VirtualTime) -> RespValue {\n        let _ = tokio::time::timeout(std::time::Duration::from_millis(0), std::future::ready(())).await;", r"R02\.9"),
     ("m94", "C01", "src/redis/executor/set_ops.rs", "            None => RespValue::Array(Some(Vec::new())),", "            None => RespValue::BulkString(None),", r"R01\.19"),
+    ("m95", "C10", "src/streaming/wal.rs", "        let wal_writer = WalWriter::new(file_writer, self.current_sequence)?;", "        let wal_writer = WalWriter::new(file_writer, self.current_sequence - 1)?;", r"R10\.12"),
+    ("m96", "C19", "src/replication/gossip.rs", "        std::mem::take(&mut self.outbound_queue)\n", "        let mut out = std::mem::take(&mut self.outbound_queue);\n        out.truncate(64);\n        out\n", r"R19\.9"),
+    ("m98", "C05", "src/redis/executor/key_ops.rs", "        self.data.clear();\n", "        self.data.clear();\n        self.watched_keys.clear();\n", r"R05\.12"),
+    ("m99", "C08", "src/replication/lattice.rs", "    pub fn set(&mut self, value: T, clock: &mut LamportClock) {\n        let ts = clock.tick();", "    pub fn set(&mut self, value: T, clock: &mut LamportClock) {\n        if self.value.is_none() && self.tombstone { return; }\n        let ts = clock.tick();", r"R08\.12"),
 ]
 
 
